@@ -330,9 +330,58 @@ def run(ctx):
                 res.ok(key, {'position': short + show_path(path), 'delegated_to': 'dfs_in_order::<UsedVisitor>'})
             else:
                 res.bad(key, 'function bodies are not traversed with the UsedVisitor')
+    check_hooks(F, res, ev, tracked)
     check_roots(F, res, ev, env, pre, post, tracked, prefix=prefix_stmts(F), host=host, prim=prim)
     res.exhaustive = True
     return res
+
+
+def check_hooks(F, res, ev, tracked):
+    """precision of the function-body side: a hook of the visitor that the closure runs over function bodies may mark
+    only what it was handed - the id it is called with (or an id stored in the instruction it is called with).  A hook
+    that goes looking through the module's arenas for other things to keep adds edges the emitted module does not
+    have: unreachable items survive the pass."""
+    from heval import file_of
+    home = file_of(F, UN)
+    hooks = [p for p in F.hir if re.match(r'^<[\w:]+(<.*?>)? as ir::Visitor', p) and file_of(F, p) == home and '{closure' not in p]
+    if len(hooks) < 5:
+        res.error('visitor hooks of the GC closure not found (%d)' % len(hooks))
+        return
+    for hp in sorted(hooks):
+        h = F.hir[hp]
+        name = hp.split('::')[-1]
+        if len(h['params']) != 2:
+            continue
+        arg = sym('operand')
+        try:
+            ws = ev.run_fn(hp, [sym('self'), arg])
+        except EvalError as e:
+            res.error('%s not analysable: %s' % (name, e))
+            continue
+        want = id_kind(h['params'][1].get('ty', ''))
+        bad = None
+        n = 0
+        for w in ws:
+            for e in w.trace:
+                if e['kind'] != 'call':
+                    continue
+                k = push_kind(F, e)
+                if not k:
+                    continue
+                n += 1
+                r, pth = peel(e['args'][-1])
+                if r != arg:
+                    bad = 'marks %s, which is not what the hook was called with' % show(e['args'][-1])[:100]
+                elif want and (k != want or pth):
+                    bad = 'called with a %s id but marks %s as a %s' % (want.split('::')[-1], show(e['args'][-1])[:60], k.split('::')[-1])
+        key = 'visitor-hook/' + name
+        if bad:
+            res.bad(key + '/extra', 'the GC visitor hook %s %s: items nothing in the emitted module refers to would survive the pass' % (name, bad))
+        elif want in tracked and not all(any(push_kind(F, e) == want for e in w.trace if e['kind'] == 'call') for w in ws if w.outcome == 'return'):
+            res.bad(key + '/missing', 'the GC visitor hook %s does not mark the %s it is called with on every path: an item used only '
+                    'from function bodies would be deleted' % (name, want.split('::')[-1]))
+        else:
+            res.ok(key, {'hook': name, 'marks': 'its own operand' if n else 'nothing'}, nontrivial=bool(n))
 
 
 def offset_reffunc(path):
